@@ -109,10 +109,13 @@ func VF_C10_Crash() { scenario(true) }
 // of the wide table), restart again
 func VF_C10_WideCatalog() {
 	r := sysx.OpenReal("vfc10", 200)
+	// the length of the column names decides how many bytes stay free at the end of the first catalog page
+	pad := 4 * vf.Choose(6)
+	vf.Note("name-pad", pad)
 	var wide []sysx.ColDef
 	types3 := []types.TypeID{types.Integer, types.Varchar, types.Float}
 	for i := 0; i < 40; i++ {
-		name := "column_with_a_rather_long_name_number_" + string(rune('a'+i/10)) + string(rune('0'+i%10))
+		name := "column_with_a_rather_long_name_number_"[:18+pad] + string(rune('a'+i/10)) + string(rune('0'+i%10))
 		wide = append(wide, sysx.ColDef{name, types3[i%3], index_constants.IndexKindInvalid})
 	}
 	wide[0].Type = types.Integer
